@@ -56,6 +56,7 @@ func (m *SubackMessage) AddReturnCodes(ret []byte) error {
 		}
 
 		m.returnCodes = append(m.returnCodes, c)
+		m.dirty = true
 	}
 
 	m.dirty = true
